@@ -122,11 +122,15 @@ def work(item):
                                   (cc + b2.lower(), 'CC-lower')):
                         n += 1
                         nt += check_eu(x, cc, dev + ':' + sp)
-                # guess_country on the bare and prefixed valid number
-                for x in (v, bare):
+                # guess_country on the bare and prefixed valid number, and with the first two characters replaced by
+                # each EU code (numbers of one state that happen to start with another state's code)
+                gx = [v, bare] + [c2 + bare[2:] for c2 in sorted(EU)] + [c2.lower() + bare[2:] for c2 in ('BE', 'EL', 'XI')]
+                for x in dict.fromkeys(gx):
                     n += 1
                     g = outcome(euvat.guess_country, x)
                     exp = sorted(GUESS_CODE.get(c2, c2.lower()) for c2 in EU if acc(outcome(mod(EU[c2]).validate, x)))
+                    if x not in (v, bare) and not exp:
+                        continue
                     if not acc(g) or sorted(g[1]) != exp:
                         viol('guess-country', 'eu.vat', x, 'guess_country(%r) = %r, constituents that accept: %r' % (x, g[1:2], exp), 'guess')
             # non-member prefixes must not be dispatched
@@ -212,6 +216,14 @@ def work(item):
             for v in vals:
                 cands = [(v, 'valid')] + [(x, 'edit') for x in neighbours(v)[:120 if quick else 100000]]
                 cands += [(' '.join(v[i:i + 4] for i in range(0, len(v), 4)), 'spaces'), (v.lower(), 'lower')]
+                # the BBAN changed and the IBAN check digits recomputed: valid by the generic rules, usually not by the
+                # national ones
+                from ..refs import standards
+                for i in range(4, len(v)):
+                    if v[i].isdigit():
+                        b = v[4:i] + str((int(v[i]) + 1 + i % 3) % 10) + v[i + 1:]
+                        cd = 98 - standards.mod97(b + v[:2] + '00')
+                        cands.append((v[:2] + '%02d' % cd + b, 'recomputed'))
                 for x, dev in cands:
                     n += 1
                     full = outcome(iban.validate, x)
